@@ -49,7 +49,8 @@ struct Runtime {
   int next_blk = 0;
   long next_serial = 0;
   long step_no = 0;      // read-event stutter removal: one Use per item and call
-  long foreign = 0;      // ::operator new calls made during a library call that did not come from track_alloc (information only)
+  long foreign_tmp = 0;  // nothrow ::operator new calls during a library call (std::get_temporary_buffer)
+  long foreign = 0;      // ::operator new calls made during a library call that did not come from track_alloc
   int quiet = 1;         // > 0: not inside a library call / inside the runtime itself
   void clear_env() { A.clear(); F.clear(); ic.clear(); idt.clear(); iu.clear(); im.clear(); ov.clear(); }
   void begin_segment() {
